@@ -96,3 +96,88 @@ def t_C03_AnsiSequences():
 
 
 TABLES = {"C03_AnsiSequences": t_C03_AnsiSequences}
+
+
+# ---------------------------------------------------------------------------
+# the four patterns as ASTs (coq/Lib/C03_Regex.v), parsed by re's own parser
+
+def _cset(items):
+    from re import _constants as C
+    out = None
+    for op, av in items:
+        if op is C.LITERAL:
+            x = "(CChr %d)" % av
+        elif op is C.CATEGORY and av is C.CATEGORY_DIGIT:
+            x = "CDigit"
+        else:
+            die("unsupported character-set item %r %r" % (op, av))
+        out = x if out is None else "(CUnion %s %s)" % (out, x)
+    if out is None:
+        die("empty character set")
+    return out
+
+
+def _seq(items):
+    xs = [_node(op, av) for op, av in items]
+    return "(cat_list [%s])" % "; ".join(xs)
+
+
+def _node(op, av):
+    from re import _constants as C
+    if op is C.LITERAL:
+        return "(RSet (CChr %d))" % av
+    if op is C.ANY:
+        return "(RSet CAny)"
+    if op is C.IN:
+        return "(RSet %s)" % _cset(av)
+    if op is C.MAX_REPEAT:
+        lo, hi, sub = av
+        x = _seq(list(sub))
+        if (lo, hi) == (0, C.MAXREPEAT):
+            return "(RStar %s)" % x
+        if (lo, hi) == (1, C.MAXREPEAT):
+            return "(RPlus %s)" % x
+        if (lo, hi) == (0, 1):
+            return "(ROpt %s)" % x
+        if (lo, hi) == (0, 2):
+            return "(ROpt (RCat %s (ROpt %s)))" % (x, x)
+        die("unsupported repeat {%r,%r}" % (lo, hi))
+    if op is C.SUBPATTERN:
+        group, add_flags, del_flags, sub = av
+        if add_flags or del_flags:
+            die("inline flags are not supported")
+        return _seq(list(sub))
+    if op is C.BRANCH:
+        _, alts = av
+        xs = [_seq(list(a)) for a in alts]
+        out = xs[-1]
+        for x in reversed(xs[:-1]):
+            out = "(RAlt %s %s)" % (x, out)
+        return out
+    die("unsupported regex construct %r" % (op,))
+
+
+def regex_ast(pattern):
+    import re as _re
+    from re import _constants as C
+    items = list(_re._parser.parse(pattern))
+    if len(items) < 2 or items[0] != (C.AT, C.AT_BEGINNING) or items[-1] != (C.AT, C.AT_END_STRING):
+        die("pattern %r is not anchored ^...\\Z" % pattern)
+    return _seq(items[1:-1])
+
+
+def t_C03_Regexes():
+    import re as _re
+    from prompt_toolkit.input import vt100_parser as vp
+    body = "From PTK Require Import Lib.C03_Regex.\n\n"
+    for name in EXPECTED_PATTERNS:
+        rx = getattr(vp, name, None)
+        if not isinstance(rx, _re.Pattern) or not isinstance(rx.pattern, str):
+            die("%s is not a compiled str regex" % name)
+        if rx.flags != _re.UNICODE:
+            die("%s flags changed: %r" % (name, rx.flags))
+        body += "(* %r *)\nDefinition ast%s : re :=\n  %s.\n\n" % (rx.pattern, name, regex_ast(rx.pattern))
+    return emit("C03_Regexes", body)
+
+
+TABLES["C03_Regexes"] = t_C03_Regexes
